@@ -5,16 +5,19 @@ import IbModel.Generated.Tables
 /-!
 Driver handlers for C12 (checkpoint store). All strings / names travel as lower-case hex of their bytes.
 
-* `CKPT-ENC <fields>`                              ↦ `OK <hex encode> | <load answer>`
-* `CKPT-DEC <hex|->`                               ↦ `OK <fields>` | `ERR <class>` | `PANIC` | `ABORT`
-* `CKPT-SAVE max=<none|n> c=<T|F> dir=<entries> <fields>` ↦ `OK <entries>`   (entries = `<name>` or, with `c=T`,
-                                                       `<name>:<hex content>`: the model's file system holds the real bytes)
-* `CKPT-SAVE-TIE max= pid= ts= dir=<names>`        ↦ `OK own=<count of own files left> other=<names of the rest>`
-* `CKPT-SLL max=<none|n> dir=<entries with content> <fields>` ↦ `OK latest=none` | `OK latest=<name> | <load answer>`
+* `CKPT-ENC nmax=<n> <fields>`                     ↦ `OK <hex encode> | <load answer>` | `ERR save` (unusable file name)
+* `CKPT-DEC <hex|->`                               ↦ `OK <fields>` | `ERR <class>` | `PANIC` | `ABORT`   (`loadFile`: by path)
+* `CKPT-DECBIG head=<hex|-> fill=<byte> total=<n>` ↦ the same for a file of `total` bytes (`head`, then the fill byte)
+* `CKPT-SAVE max=<none|n> c=<T|F> en=<T|F> nmax=<n> dir=<entries|!missing|!notdir> <fields>` ↦ `OK <entries>` | `ERR save`
+                                                       (entries = `<name>` or, with `c=T`, `<name>:<hex content>`: the
+                                                       model's file system holds the real bytes; `nmax` = `NAME_MAX` of the
+                                                       scratch file system as measured by the harness)
+* `CKPT-SAVE-TIE max= nmax= pid= ts= dir=<names>`  ↦ `OK own=<count of own files left> other=<names of the rest>`
+* `CKPT-SLL max=<none|n> nmax= dir=<entries with content> <fields>` ↦ `OK latest=none` | `OK latest=<name> | <load answer>`
                                                        (save ; find_latest ; read ; load composed in the model)
-* `CKPT-LATEST en=<T|F> pid=<hex> dir=<names>`     ↦ `SOME <name>` | `NONE`
+* `CKPT-LATEST en=<T|F> pid=<hex> dir=<names|!missing|!notdir>` ↦ `SOME <name>` | `NONE` | `ERR latest`
 * `CKPT-LATEST-TIE en= pid= dir=<names>`           ↦ `STAMP <t>` | `NONE`
-* `CKPT-CLEAR pid=<hex> dir=<names>`               ↦ `OK <names>`
+* `CKPT-CLEAR pid=<hex> dir=<names|!missing|!notdir>` ↦ `OK <names>` | `ERR clear`
 * `CKPT-POLICY en=<T|F> pol=<barrier|every:n|time:s|hybrid:<T|F>:s> idx=<n> barrier=<T|F> last=<none|ago:s|future:s>` ↦ `T` | `F`
 
 The hash parameter `H` of the model is instantiated with `IB.Checkpoint.Sha.sha256Hex` (the function
@@ -34,6 +37,13 @@ def hexOf (b : Bytes) : String := bytesToHex (ofBytes b)
     satisfy any request up to that limit (nothing larger is ever requested: `load_never_crashes`) -/
 def cfgNow : Cfg := { limit := some IB.Generated.ckptDecodeLimit, mem := IB.Generated.ckptDecodeLimit }
 
+/-- the configuration for loads BY PATH: the allocator is assumed to satisfy any request up to the read cap (nothing
+    larger is ever requested: `loadFile_allocates_at_most_cap`); `= currentCfg ckptReadCap` of `Props/C12.lean` -/
+def cfgFile : Cfg := { limit := some IB.Generated.ckptDecodeLimit, mem := IB.Generated.ckptReadCap }
+
+/-- `MAX_CHECKPOINT_FILE_BYTES` of the running code (`= currentCap` of `Props/C12.lean`) -/
+def capNow : Option Nat := some IB.Generated.ckptReadCap
+
 def H : Bytes → Bytes := IB.Checkpoint.Sha.sha256Hex
 
 def fields (s : State) : String :=
@@ -51,7 +61,7 @@ def errClass : DecErr → String
   | .allocFail => "ABORT"
 
 def loadAnswer (bytes : Bytes) : String :=
-  match load H cfgNow bytes with
+  match loadFile H cfgFile capNow bytes with
   | .ok s => "OK " ++ fields s
   | .error e => errClass e
 
@@ -70,13 +80,29 @@ def state? (args : List String) : Option State := do
               checksum := ck, execMode := em,
               metadata := { totalNodes := tn, lastNodeType := lnt, progressPercent := UInt8.ofNat pp } }
 
+/-- real `save_checkpoint` into an empty directory with `max_checkpoints = None`, then `load_checkpoint` of the path -/
 def handleEnc (args : List String) : String :=
-  if args.length != 9 then "BAD-OP" else
-  match state? args with
-  | none => "BAD-OP"
-  | some s =>
-    let bytes := encode s
-    s!"OK {hexOf bytes} | {loadAnswer bytes}"
+  if args.length != 10 then "BAD-OP" else
+  match (kv? "nmax" args) >>= parseNat?, state? args with
+  | some nmax, some s =>
+    match saveChecked true nmax none (.dir []) s with
+    | none => "ERR save"
+    | some fs =>
+      match read fs (fileName s) with
+      | none => "ERR io"
+      | some bytes => s!"OK {hexOf bytes} | {loadAnswer bytes}"
+  | _, _ => "BAD-OP"
+
+/-- a file of `total` bytes: `head` followed by `total - |head|` copies of the byte `fill` (sparse files of several
+    hundred MiB). By `loadFile_padded` the run of fill bytes may be cut at the cap without changing the answer. -/
+def handleDecBig (args : List String) : String :=
+  if args.length != 3 then "BAD-OP" else
+  match (kv? "head" args) >>= (fun h => if h == "-" then some [] else hex? h), (kv? "fill" args) >>= parseNat?,
+        (kv? "total" args) >>= parseNat? with
+  | some head, some fill, some total =>
+    if fill > 255 || total < head.length then "BAD-OP" else
+    loadAnswer (head ++ List.replicate (min (total - head.length) IB.Generated.ckptReadCap) (UInt8.ofNat fill))
+  | _, _, _ => "BAD-OP"
 
 def handleDec : List String → String
   | ["-"] => loadAnswer []
@@ -117,6 +143,12 @@ def entry? (withContent : Bool) (s : String) : Option (Name × Bytes) :=
 def dir? (withContent : Bool) (s : String) : Option FS :=
   if s == "-" then some [] else (s.splitOn ",").mapM (entry? withContent)
 
+/-- `!missing` / `!notdir` / a listing -/
+def dirState? (withContent : Bool) (s : String) : Option Dir :=
+  if s == "!missing" then some .missing
+  else if s == "!notdir" then some .notDir
+  else (dir? withContent s).map .dir
+
 def sortFS (fs : FS) : FS := fs.mergeSort (fun a b => bytesLe a.1 b.1)
 
 def dirOut (withContent : Bool) (fs : FS) : String :=
@@ -124,50 +156,61 @@ def dirOut (withContent : Bool) (fs : FS) : String :=
   else ",".intercalate ((sortFS fs).map fun f => if withContent then s!"{hexOf f.1}:{hexOf f.2}" else hexOf f.1)
 
 def handleSave (args : List String) : String :=
-  if args.length != 12 then "BAD-OP" else
-  match (kv? "max" args) >>= max?, (kv? "c" args) >>= bool? with
-  | some max, some wc =>
-    match (kv? "dir" args) >>= dir? wc, state? args with
-    | some fs, some st => "OK " ++ dirOut wc (save max fs st)
+  if args.length != 14 then "BAD-OP" else
+  match (kv? "max" args) >>= max?, (kv? "c" args) >>= bool?, (kv? "en" args) >>= bool?,
+        (kv? "nmax" args) >>= parseNat? with
+  | some max, some wc, some en, some nmax =>
+    match (kv? "dir" args) >>= dirState? wc, state? args with
+    | some d, some st =>
+      match saveChecked en nmax max d st with
+      | some fs => "OK " ++ dirOut wc fs
+      | none => "ERR save"
     | _, _ => "BAD-OP"
-  | _, _ => "BAD-OP"
+  | _, _, _, _ => "BAD-OP"
 
 /-- two spellings of one stamp present: which one survives depends on the listing order, so only the
     order-independent facts are answered -/
 def handleSaveTie (args : List String) : String :=
-  if args.length != 4 then "BAD-OP" else
-  match (kv? "max" args) >>= max?, (kv? "pid" args) >>= hex?, (kv? "ts" args) >>= parseNat?,
-        (kv? "dir" args) >>= names? with
-  | some max, some pid, some ts, some dir =>
+  if args.length != 5 then "BAD-OP" else
+  match (kv? "max" args) >>= max?, (kv? "nmax" args) >>= parseNat?, (kv? "pid" args) >>= hex?,
+        (kv? "ts" args) >>= parseNat?, (kv? "dir" args) >>= names? with
+  | some max, some nmax, some pid, some ts, some dir =>
     if ts > u64Max then "BAD-OP" else
     let st : State := { pipelineId := pid, completedNodeIndex := 1, timestamp := ts, partitionCount := 1,
                         checksum := [], execMode := [],
                         metadata := { totalNodes := 3, lastNodeType := [], progressPercent := 33 } }
-    let after := names (save max (fsOf dir) st)
-    s!"OK own={(after.filter (isOwn pid)).length} other={namesOut (sortNames (after.filter (fun n => !isOwn pid n)))}"
-  | _, _, _, _ => "BAD-OP"
+    match saveChecked true nmax max (.dir (fsOf dir)) st with
+    | none => "ERR save"
+    | some fs =>
+      let after := names fs
+      s!"OK own={(after.filter (isOwn pid)).length} other={namesOut (sortNames (after.filter (fun n => !isOwn pid n)))}"
+  | _, _, _, _, _ => "BAD-OP"
 
 /-- `save_checkpoint` ; `find_latest_checkpoint` ; `File::open`+`read_to_end` ; `load_checkpoint` -/
 def handleSll (args : List String) : String :=
-  if args.length != 11 then "BAD-OP" else
-  match (kv? "max" args) >>= max?, (kv? "dir" args) >>= dir? true, state? args with
-  | some max, some fs, some st =>
-    let fs1 := save max fs st
-    match latest true st.pipelineId fs1 with
-    | none => "OK latest=none"
-    | some n =>
-      match read fs1 n with
-      | none => "ERR io"
-      | some b => s!"OK latest={hexOf n} | {loadAnswer b}"
-  | _, _, _ => "BAD-OP"
+  if args.length != 12 then "BAD-OP" else
+  match (kv? "max" args) >>= max?, (kv? "nmax" args) >>= parseNat?, (kv? "dir" args) >>= dir? true, state? args with
+  | some max, some nmax, some fs, some st =>
+    match saveChecked true nmax max (.dir fs) st with
+    | none => "ERR save-or-latest"
+    | some fs1 =>
+      match latestChecked true st.pipelineId (.dir fs1) with
+      | none => "ERR save-or-latest"
+      | some none => "OK latest=none"
+      | some (some n) =>
+        match read fs1 n with
+        | none => "ERR io"
+        | some b => s!"OK latest={hexOf n} | {loadAnswer b}"
+  | _, _, _, _ => "BAD-OP"
 
 def handleLatest (args : List String) : String :=
   if args.length != 3 then "BAD-OP" else
-  match (kv? "en" args) >>= bool?, (kv? "pid" args) >>= hex?, (kv? "dir" args) >>= names? with
-  | some en, some pid, some dir =>
-    match latest en pid (fsOf dir) with
-    | some n => "SOME " ++ hexOf n
-    | none => "NONE"
+  match (kv? "en" args) >>= bool?, (kv? "pid" args) >>= hex?, (kv? "dir" args) >>= dirState? false with
+  | some en, some pid, some d =>
+    match latestChecked en pid d with
+    | some (some n) => "SOME " ++ hexOf n
+    | some none => "NONE"
+    | none => "ERR latest"
   | _, _, _ => "BAD-OP"
 
 def handleLatestTie (args : List String) : String :=
@@ -183,8 +226,11 @@ def handleLatestTie (args : List String) : String :=
 
 def handleClear (args : List String) : String :=
   if args.length != 2 then "BAD-OP" else
-  match (kv? "pid" args) >>= hex?, (kv? "dir" args) >>= names? with
-  | some pid, some dir => "OK " ++ namesOut (sortNames (names (clear pid (fsOf dir))))
+  match (kv? "pid" args) >>= hex?, (kv? "dir" args) >>= dirState? false with
+  | some pid, some d =>
+    match clearChecked pid d with
+    | some fs => "OK " ++ namesOut (sortNames (names fs))
+    | none => "ERR clear"
   | _, _ => "BAD-OP"
 
 def policy? (s : String) : Option Policy :=
@@ -213,7 +259,7 @@ def handlePolicy (args : List String) : String :=
   | _, _, _, _, _ => "BAD-OP"
 
 def handlers : List (String × (List String → String)) :=
-  [("CKPT-ENC", handleEnc), ("CKPT-DEC", handleDec), ("CKPT-SAVE", handleSave), ("CKPT-SAVE-TIE", handleSaveTie),
+  [("CKPT-ENC", handleEnc), ("CKPT-DEC", handleDec), ("CKPT-DECBIG", handleDecBig), ("CKPT-SAVE", handleSave), ("CKPT-SAVE-TIE", handleSaveTie),
    ("CKPT-SLL", handleSll), ("CKPT-LATEST", handleLatest), ("CKPT-LATEST-TIE", handleLatestTie),
    ("CKPT-CLEAR", handleClear), ("CKPT-POLICY", handlePolicy)]
 
